@@ -272,7 +272,13 @@ def r06_8(ctx, run, rule='R06.8'):
                     bad.append(f'an entry is dropped on a path that does not satisfy "{spec[0]}" [{conds}]')
             loc = f"{b.file}:{b.blocks[h]['term'].get('line')}"
             d = f'loop@{sorted(loops).index(h)}'
-            if bad:
+            import report as _rp
+            base_fns = _rp.baseline_functions()
+            if bad and spec is None and not _rp.is_baseline_fn(b.path):
+                # a function that did not exist under this name on the pinned tree (renamed, merged, extracted): which entries it is meant to drop is not in the table
+                run.undecided(rule, b.path, d, 'this loop copies entries into a builder and skips some, and the function is not one of the editors whose drop condition this rule has on record '
+                              '(new or renamed): whether only the entries the edit removes are dropped is not decided', loc)
+            elif bad:
                 run.violation(rule, b.path, d, '; '.join(sorted(set(bad))[:2]) + ': the output loses a member/element the edit does not remove', loc)
             else:
                 run.proved(rule, b.path, d, 'every iteration either copies the entry into the builder or drops it under the edit\'s own condition' + (f' ({spec[0]})' if spec else ''), loc)
@@ -436,6 +442,8 @@ def r07_4(ctx, run, rule='R07.4'):
                         d = f'position[{s[1][2]}:{len(seen) - 1}]'
                         if ok:
                             run.proved(rule, p, d, why, loc)
+                        elif ok is None:
+                            run.undecided(rule, p, d, f'a position is recorded with length {show(ln)[:60]} for offset {show(off)[:40]}: ' + why + ': whether it is the item\'s own length is not decided', loc)
                         else:
                             run.violation(rule, p, d, f'a position is recorded with length {show(ln)[:60]} for offset {show(off)[:40]}: ' + why +
                                           ' — the writers copy root[offset..offset+length], so the result is not exactly the selected item', loc)
@@ -486,11 +494,20 @@ def position_pair_ok(b, off, ln):
     s = show(ll)
     if ll[0] in ('deref', 'field', 'index', 'downcast') or (ll[0] == 'field'):
         # length must be an element of a decoded entry list: (… as Some).0.1  or  jentries[i].1
-        if any(x[0] == 'call' and canon(x[1]).endswith(('Iterator::next', 'Index::index')) for x in subterms(ll)) or any(x[0] == 'index' for x in subterms(ll)):
+        if any(x[0] == 'call' and canon(x[1]).endswith(('Iterator::next', 'Index::index', 'slice::get', 'Vec::get', 'VecDeque::get', 'Iterator::nth', 'slice::first', 'slice::last'))
+               for x in subterms(ll)) or any(x[0] == 'index' for x in subterms(ll)):
             return True, 'the length field of the entry at that offset'
     if ll[0] == 'field' and ll[1][0] == 'field':
         return True, 'the length field of the entry at that offset'
-    return False, 'the length is neither an entry\'s own length field, nor the whole document, nor the caller\'s position'
+    # recognised-and-wrong: a length that runs to the end of the document from a non-zero offset, or a constant
+    l0 = strip_casts(ll)
+    if (l0[0] == 'len' or is_call(l0, 'slice::len')) and const_of(lo) != 0:
+        return False, 'the length is the length of a slice that runs to the end of the document, not the item\'s own length'
+    if l0[0] == 'bin' and l0[1] == 'Sub' and any(x[0] == 'len' or is_call(x, 'slice::len') for x in subterms(l0[2])):
+        return False, 'the length is "everything up to the end of the document", not the item\'s own length'
+    if const_of(l0) is not None:
+        return False, f'the length is the constant {const_of(l0)}'
+    return None, 'the length is neither recognised as an entry\'s own length field, nor as the whole document, nor as the caller\'s position'
 
 
 # ------------------------------------------------------------------ R06.9 strip_nulls visits every nested container
